@@ -48,8 +48,16 @@ def run(ctx):
     rng = ctx.rng.fork("rel")
     lines = []
     strategies = list(gen.STRATEGIES.values())
+    # ternary presentations of regular matroids that need 3-sums (signed by the library itself; the judge only compares
+    # presentations with each other, so nothing about the seeds is trusted)
+    deep = gen.library_signed(ctx.drive("rel"), gen.deep_binary_seeds(rng, 12 if q else 80, 120))
     for it in range(1200 if q else 20000):
-        M = seed(rng, big=(it % 6 == 0))
+        if deep and it % 3 == 0:
+            M = gen.pivoted_presentation(rng, [r[:] for r in rng.choice(deep)], rng.below(3))
+            if rng.below(4) == 0:
+                M = gen.corrupt(rng, M, (-1, 0, 1))
+        else:
+            M = seed(rng, big=(it % 6 == 0))
         m, n = len(M), len(M[0])
         strat = rng.choice(strategies)
         for _ in range(2 if q else 4):
